@@ -330,6 +330,17 @@ pub fn oracle_client(np: &NetPlan, o: &MuxOutcome) -> Vec<Violation> {
     }
     // a body that follows a request sozu refused with RST_STREAM was in flight before the client could see the reset:
     // having chosen the stream error, sozu must be prepared for those frames (RFC 9113 5.1) and not end the connection
+    // ... and must give their octets back to the connection window (RFC 9113 6.9: every DATA frame counts, also on a closed
+    // stream): on a connection that stayed up, the upload that follows completes
+    if let Kind::TooManyStreams { window_probe: true, .. } = &ca.kind {
+        if view.error_goaway().is_none() {
+            match rec.stream_for(ID_FOLLOW) {
+                Some(s) if s.status == Some(200) && s.sim_id == Some(ID_FOLLOW) && s.recv_end => {}
+                Some(s) => v.push(Violation::new("upload_stalled_after_refused_streams", feature.to_string(), format!("{} octets of DATA went to streams sozu had refused; the {}-octet upload that followed on the same connection (receive window 65535): sent {} octets, status {:?}, rst {:?}, connection send window left {}, connection WINDOW_UPDATE credit received {}", WINDOW_PROBE_REFUSED_BYTES, WINDOW_PROBE_UPLOAD, s.sent_body, s.status, s.recv_rst.map(ecode_name), rec.conn_send_window, rec.conn_wu_recv))),
+                None => v.push(Violation::new("upload_stalled_after_refused_streams", feature.to_string(), "the upload that follows the refused streams was never opened although the connection stayed up".to_string())),
+            }
+        }
+    }
     if let Kind::TooManyStreams { with_body: true, .. } = &ca.kind {
         let refused_by_rst = rec.streams.values().any(|s| s.recv_rst == Some(7));
         if refused_by_rst { if let Some(g) = view.error_goaway() { v.push(Violation::new("reset_stream_followup_killed_connection", feature.to_string(), format!("sozu refused a stream with RST_STREAM(REFUSED_STREAM) and then ended the connection with GOAWAY({}) when the request's DATA frame arrived", ecode_name(g.code)))); } }
